@@ -198,7 +198,9 @@ def rt_minimise(parts, clause):
 
 # ------------------------------------------------------------------------------------------ (ii) proxy
 
-PLAIN_LINES = ("abc", "", "x y  z", "日本語", "tail  ", "  lead", "a-b_c.d")
+PLAIN_LINES = ("abc", "", "x y  z", "日本語", "tail  ", "  lead", "a-b_c.d",
+               # characters that str.splitlines() treats as line boundaries but a "\n"-delimited stream does not
+               "unit\x1csep", "next\x85line", "ls\u2028ps\u2029x")
 SGR_LINES = (
     "\x1b[1mbold\x1b[0m",
     "\x1b[31;1mred\x1b[0m plain",
